@@ -170,7 +170,20 @@ pub fn judge_c04(info: &Info, log: &RunLog, rep: &mut Report) {
     // the window: until the receive task that reported the success ends (a reordered link can make an
     // earlier incarnation end unsuccessfully before the one that delivers starts)
     let first_span = d.spans(id, TaskKind::Recv).into_iter().filter(|s| s.start_us <= t0_t && s.end_us.map_or(true, |e| e >= t0_t)).last().cloned();
-    let win_end = first_span.as_ref().and_then(|s| s.end_us).unwrap_or(u64::MAX);
+    let mut win_end = first_span.as_ref().and_then(|s| s.end_us).unwrap_or(u64::MAX);
+    // A transaction that waits for the ACK of its Finished PDU ends when that ACK arrives or when a limit is
+    // declared. If its task vanished for any other reason (an error raised while handling a late PDU), the
+    // protocol transaction is still open for the peer: whatever a successor task does with the sender's
+    // retransmissions is a consequence of the PDU that reached the open transaction - the window stays open.
+    if win_end != u64::MAX && (t.mode == ack() || info.knobs[0].closure) {
+        let acked = d.arrivals(t.dst, id).iter().any(|a| a.2 == Kind::AckFin && a.1 <= win_end && a.0 > t0_idx);
+        let declared = d.faults(t.dst, id).iter().any(|f| f.1 <= win_end) || d.abandons(t.dst, id).iter().any(|f| f.1 <= win_end);
+        let by_user = d.prims(t.dst, 0).iter().any(|p| p.3 && matches!(p.2, PrimKind::Cancel) && p.1 <= win_end);
+        if !acked && !declared && !by_user {
+            rep.count("c04_receive_task_vanished_in_window");
+            win_end = u64::MAX;
+        }
+    }
     // late PDUs that actually reached the open transaction
     let late: Vec<_> = d.arrivals(t.dst, id).into_iter().filter(|a| a.0 > t0_idx && a.1 <= win_end && a.2 != Kind::AckFin).collect();
     rep.add("c04_late_pdus_delivered_in_window", late.len() as u64);
